@@ -17,19 +17,6 @@ from .methods import MethodMixin
 RET, BRK, CONT = "return", "break", "continue"
 
 
-class Env:
-    __slots__ = ("vars", "parent", "globals", "func", "is_comp", "self_obj", "globals_decl")
-
-    def __init__(self, vars, parent, globals_, func=None, is_comp=False):
-        self.vars = vars
-        self.parent = parent
-        self.globals = globals_
-        self.func = func
-        self.is_comp = is_comp
-        self.self_obj = None
-        self.globals_decl = None
-
-
 class Interp(ExprMixin, BuiltinMixin, MethodMixin):
     def __init__(self, roots, while_bound=64):
         """roots: list of (package prefix, directory) searched for modules, in order."""
